@@ -41,8 +41,13 @@ RULE = (
     "last-submitted-first, evens-then-odds, random), released by a gate once the worker processes have picked up "
     "their first task; the realised order is read from the history (yield events) and each parallel history is "
     "compared with a serial run of the same workload. A parallel history is non-trivial when its realised "
-    "completion order differs from the submission order and it has >= 1 failing record; distinct = (n class, "
-    "workers, realised order class, outcome pattern, store, entry)."
+    "completion order differs from the submission order and it has >= 1 failing record. Chains also contain apps "
+    "defined from FUNCTIONS configured with mutable arguments (positional list/dict, keyword dict/set/list) that "
+    "they mutate; apply_to is also given custom id_from_source functions (upper-cased, own suffix rule, "
+    "directory+name with the same file name in two directories so that the default identifiers would collide) "
+    "and records are demanded under those identifiers. A history is counted non-trivial when its realised order is "
+    "not the submission order or it has >= 1 failing record; distinct = (n class, workers (0 = serial), realised "
+    "order class, outcome pattern, store, entry, input kind)."
 )
 LEVEL_TEXT = (
     "Each history is decided offline from an append-only event log written by all processes plus the final store "
@@ -144,8 +149,14 @@ def make_ids(rng, n):
     return [f"r{i:02d}" + "".join(rng.choice(alphabet) for _ in range(4)) for i in range(n)]
 
 
-def make_plan(rng, keys, nsteps, pattern):
+def plan_positions(steps):
+    """positions a planned outcome can sit at: the loader (0) and every step that takes a plan"""
+    return [0] + [i for i, s in enumerate(steps, start=1) if s not in A.PLANLESS]
+
+
+def make_plan(rng, keys, steps, pattern):
     plan = {}
+    at = plan_positions(steps)
     for k in keys:
         if pattern == "all-ok":
             mode = "ok"
@@ -155,15 +166,18 @@ def make_plan(rng, keys, nsteps, pattern):
             mode = rng.choices(MODES, weights=[40, 18, 9, 12, 12, 9])[0]
         if mode == "ok":
             continue
-        plan[k] = {"at": rng.randint(0, nsteps), "mode": mode, "variant": rng.choice(VARIANTS[mode])}
+        plan[k] = {"at": rng.choice(at), "mode": mode, "variant": rng.choice(VARIANTS[mode])}
     if pattern == "single-fail" and keys:
         k = rng.choice(keys)
-        plan = {k: plan.get(k) or {"at": rng.randint(0, nsteps), "mode": "exc", "variant": "ValueError"}}
+        plan = {k: plan.get(k) or {"at": rng.choice(at), "mode": "exc", "variant": "ValueError"}}
     return plan
 
 
-def make_workload(rng, n, store=None, entry=None, inputs=None):
-    steps_pool = ["alpha", "beta", "gamma", "watch"]
+ID_VARIANTS = [None, None, "upper", "tagged", "dir-name", "dir-name"]
+
+
+def make_workload(rng, n, store=None, entry=None, inputs=None, idfn="random"):
+    steps_pool = ["alpha", "beta", "gamma", "watch", "fn", "fn2"]
     nst = rng.choice([0, 1, 1, 2, 2, 3, 3])
     steps = rng.sample(steps_pool, nst)
     inputs = inputs or rng.choice(["str", "str", "path", "member", "dstore"])
@@ -182,6 +196,18 @@ def make_workload(rng, n, store=None, entry=None, inputs=None):
         "logger": rng.random() < 0.25,
         "keys": make_ids(rng, n),
     }
+    # a custom id_from_source handed to apply_to (the writer keeps its default one); "dir-name" comes with the input
+    # layout in which the same file name occurs in two directories, so the DEFAULT identifiers would collide
+    W["idfn"], W["layout"] = None, "flat"
+    if W["entry"] == "apply_to" and inputs != "values":
+        W["idfn"] = rng.choice(ID_VARIANTS) if idfn == "random" else idfn
+        if W["idfn"] == "dir-name":
+            if inputs in ("str", "path"):
+                W["layout"] = "subdirs"
+                toks = make_ids(rng, (n + 1) // 2)
+                W["keys"] = ["n" + toks[i // 2][1:] + "ab"[i % 2] for i in range(n)]
+            else:
+                W["idfn"] = "tagged"
     W["payload"] = {k: "%08x" % rng.getrandbits(32) for k in W["keys"]}
     pattern = rng.choice(["mixed", "mixed", "mixed", "mixed", "all-ok", "all-fail", "single-fail"])
     if inputs in ("items", "values"):
@@ -202,7 +228,7 @@ def make_workload(rng, n, store=None, entry=None, inputs=None):
                 m = rng.choice([("exc", 0), ("exc", 0), ("strip", 0), ("exc", 1)]) if W["entry"] == "apply_to" else ("exc", 0)
                 W["plan"][W["keys"][i]] = {"mode": m[0], "at": m[1], "variant": "ValueError"}
     else:
-        W["plan"] = make_plan(rng, W["keys"], len(steps), pattern)
+        W["plan"] = make_plan(rng, W["keys"], steps, pattern)
         W["falsy"] = []
     return W
 
@@ -230,9 +256,17 @@ class World:
         self.indir = os.path.join(self.base, "in")
         os.makedirs(self.indir)
         for k in W["keys"]:
-            with open(os.path.join(self.indir, k + A.IN_SUFFIX), "w") as f:
+            os.makedirs(os.path.dirname(self.path_of(k)), exist_ok=True)
+            with open(self.path_of(k), "w") as f:
                 json.dump({"key": k, "payload": W["payload"][k]}, f)
         self.count = 0
+
+    def path_of(self, k):
+        if self.W.get("layout") == "subdirs":
+            # key = shared file name + the directory's letter
+            grp = {v: g for g, v in A.GROUPS.items()}[k[-1]]
+            return os.path.join(self.indir, grp, k[:-1] + A.IN_SUFFIX)
+        return os.path.join(self.indir, k + A.IN_SUFFIX)
 
     def inputs(self):
         """(what is handed to cogent3, [input object per key in submission order], keys in submission order)"""
@@ -242,12 +276,12 @@ class World:
         kind = W["inputs"]
         keys = list(W["keys"])
         if kind == "str":
-            objs = [os.path.join(self.indir, k + A.IN_SUFFIX) for k in keys]
+            objs = [self.path_of(k) for k in keys]
             return objs, objs, keys
         if kind == "path":
             import pathlib
 
-            objs = [pathlib.Path(self.indir) / (k + A.IN_SUFFIX) for k in keys]
+            objs = [pathlib.Path(self.path_of(k)) for k in keys]
             return objs, objs, keys
         if kind in ("member", "dstore"):
             ds = DataStoreDirectory(self.indir, suffix="txt")
@@ -288,6 +322,11 @@ def expected(W, names, key, src_text):
     p = W["plan"].get(key)
     steps = W["steps"]
     ok_content = {"key": key, "payload": W["payload"][key], "source": src_text, "trail": list(names)}
+    for s_ in steps:
+        if s_ in A.PLANLESS:
+            # function-defined steps configured with mutable arguments: what they add depends on this record only
+            field, value = A.fn_expected(s_, key)
+            ok_content[field] = value
     if steps and steps[-1] == "seqs":
         ok_content = {key: A.dna_of(W["payload"][key])}
     if not p or p["mode"] == "ok":
@@ -615,6 +654,8 @@ def run_history(W, world, plan, parallel=False, workers=None, delays=None, store
             app = proc + writer
             wrap_as_completed(W, app, log)
             try:
+                if W.get("idfn"):
+                    kw["id_from_source"] = A.ID_FUNCS[W["idfn"]]
                 app.apply_to(handed, show_progress=False, logger=None if W.get("logger") else False, **kw)
             except Exception as e:  # noqa: BLE001
                 obs["raised"] = e
@@ -682,7 +723,7 @@ def solo_outcomes(W, plan, objs, keys):
 
 def describe(W, obs, **extra):
     d = {
-        "workload": {k: W.get(k) for k in ("n", "steps", "store", "entry", "inputs", "logger", "keys", "plan", "falsy", "falsy_vals", "payload")},
+        "workload": {k: W.get(k) for k in ("n", "steps", "store", "entry", "inputs", "logger", "keys", "plan", "falsy", "falsy_vals", "payload", "idfn", "layout")},
         "parallel": obs["parallel"],
         "workers": obs["workers"],
         "submitted": obs["keys"],
@@ -744,10 +785,11 @@ def check_history(res, W, obs, plan, label, prior=None, replay=None):
         e = obs["raised"]
         # which record was being handled: the last one yielded but not written (or, if its source is unknown, the
         # first submitted one that was not written)
-        written = set()
+        written_ids = set()
         for x in ev:
             if x["ev"] == "write":
-                written.add(x["id"][:-5] if x["id"].endswith(".json") else x["id"])
+                written_ids.add(x["id"][:-5] if x["id"].endswith(".json") else x["id"])
+        written = {k for k in keys if store_id(W, obs, k) in written_ids}
         ys = [x["key"] for x in ev if x["ev"] == "yield"]
         culprit = ys[-1] if ys and ys[-1] in keys and ys[-1] not in written else None
         if culprit is None:
@@ -798,10 +840,23 @@ def check_history(res, W, obs, plan, label, prior=None, replay=None):
         elif e["ev"] == "finish":
             open_calls[(e["key"], e["step"], e["pid"])] = open_calls.get((e["key"], e["step"], e["pid"]), 0) - 1
 
+    # the identifier each input's record must be stored under: the id_from_source given to apply_to decides
+    sid = {k: store_id(W, obs, k) for k in keys}
+    default_sid = {k: store_id(W, obs, k, variant=None) for k in keys}
+    if W["entry"] == "apply_to":
+        res.count("id_from_source:" + (W.get("idfn") or "default") + ("/default-would-collide" if len(set(default_sid.values())) < len(keys) else ""))
+    writes = {k: writes.get(sid[k]) for k in keys}
     final = {}
     for k in keys:
         exp = exp_all[k]
-        recs = by_id.get(k, [])
+        recs = by_id.get(sid[k], [])
+        if not recs and sid[k] != default_sid[k] and by_id.get(default_sid[k]):
+            res.evals += 1
+            res.witness(
+                "C14/conservation/record-not-under-the-id_from_source-identifier",
+                **det(key=k, expected_identifier=sid[k], found_under=default_sid[k], records=by_id[default_sid[k]][:2]),
+            )
+            continue
         # resumed run: apply_to is append-only. A completed input is skipped; an input that has a not-completed
         # record is either skipped as well (sqlite: the record counts as a member) or run again (directory store).
         # Both are accepted, as long as a skipped record is untouched.
@@ -843,11 +898,11 @@ def check_history(res, W, obs, plan, label, prior=None, replay=None):
             res.witness("C14/conservation/yield-count-not-one", **det(key=k, yields=yields.get(k, 0)))
         if W["entry"] == "apply_to":
             res.evals += 1
-            if len(writes.get(k, [])) != 1 or writes[k][0] != rec["kind"]:
+            if len(writes.get(k) or []) != 1 or writes[k][0] != rec["kind"]:
                 res.witness("C14/conservation/write-events-disagree-with-store", **det(key=k, writes=writes.get(k), record=rec))
             if rec["inner_id"] is not None:
                 res.evals += 1
-                if rec["inner_id"] != k:
+                if rec["inner_id"] != sid[k]:
                     res.witness("C14/association/identifier-inside-record-differs", **det(key=k, record=rec))
         # ---- (2) association: model, then the chain on that input alone
         res.evals += 1
@@ -859,6 +914,14 @@ def check_history(res, W, obs, plan, label, prior=None, replay=None):
             if rec["content"] != exp["content"]:
                 other = content_owner.get(rec["content"])
                 cls = "record-holds-another-inputs-result" if other and other != k else "content-differs-from-model"
+                try:
+                    g, w = json.loads(rec["content"]), json.loads(exp["content"])
+                    strip = lambda d: {a: b for a, b in d.items() if a not in ("cfg", "cfg2")}  # noqa: E731
+                    if isinstance(g, dict) and isinstance(w, dict) and strip(g) == strip(w):
+                        # only what the function-defined steps report about their configured arguments differs
+                        cls = "function-app-configured-argument-carries-other-records"
+                except ValueError:
+                    pass
                 res.witness(f"C14/association/{cls}", **det(key=k, record=rec, expected=exp, belongs_to=other))
                 continue
         else:
@@ -919,7 +982,8 @@ def check_history(res, W, obs, plan, label, prior=None, replay=None):
         res.witness("C14/history/start-without-finish", **det(dangling=dangling[:10]))
     # no extra records
     res.evals += 1
-    extra = [r for r in obs["records"] if r["id"] not in set(keys) and r["id"] not in prior]
+    known_ids = set(sid.values())
+    extra = [r for r in obs["records"] if r["id"] not in known_ids]
     if extra:
         res.witness("C14/conservation/record-without-input", **det(extra=extra[:6]))
     extra_y = [k for k in yields if k not in set(keys)]
@@ -953,6 +1017,25 @@ def calm_plan(W):
     for k in list(W["plan"]):
         if expected(W, names, k, k + A.IN_SUFFIX).get("writer_level"):
             W["plan"][k] = {"at": W["plan"][k]["at"], "mode": "none", "variant": None}
+
+
+def store_id(W, obs, key, variant="given"):
+    """model of the identifier: the default strips directory and suffix; the custom ones as documented in c14_apps"""
+    if W["inputs"] == "values":
+        return key
+    variant = W.get("idfn") if variant == "given" else variant
+    text = src_text_of(W, obs, key)
+    name = os.path.basename(text)
+    stem = name[: -len(A.IN_SUFFIX)] if name.endswith(A.IN_SUFFIX) else name
+    if variant is None:
+        return stem
+    if variant == "upper":
+        return stem.upper()
+    if variant == "tagged":
+        return stem + "_v2"
+    if variant == "dir-name":
+        return os.path.basename(os.path.dirname(text)) + "-" + stem
+    raise ValueError(variant)
 
 
 def realised_order(obs):
@@ -1032,8 +1115,10 @@ def case_parallel(res, case):
                 ids_s, ids_p = {x[0] for x in a}, {x[0] for x in b}
                 cls = "different-identifiers" if ids_s != ids_p else "different-content"
                 res.witness(f"C14/serial-vs-parallel/{cls}", **describe(W, par, replay_case=replay, only_serial=only_s, only_parallel=only_p))
-            if p_out["n_fail"] >= 1 and got != list(range(len(got))):
-                res.sig(n_class(n), workers, oc, pattern_class(W, plan, par["keys"]), W["store"], W["entry"], W["inputs"])
+        if s_out is not None and s_out["n_fail"] >= 1:
+            res.sig(n_class(n), 0, "serial", pattern_class(W, plan, ser["keys"]), W["store"], W["entry"], W["inputs"])
+        if p_out is not None and (p_out["n_fail"] >= 1 or got != list(range(len(got)))):
+            res.sig(n_class(n), workers, oc, pattern_class(W, plan, par["keys"]), W["store"], W["entry"], W["inputs"])
         res.sample({"parallel": {"workers": workers, "target": case["target"], "deadlines": d, "realised": got, "steps": W["steps"], "plan": plan}})
     finally:
         world.close()
@@ -1059,17 +1144,34 @@ def case_serial(res, case):
             res.count(f"serial:{kind}/{W['entry']}/{W['store'] if W['entry'] == 'apply_to' else '-'}/{W['inputs']}")
             if kind != "resume":
                 obs = run_history(W, world, W["plan"])
-                check_history(res, W, obs, W["plan"], "serial", replay=replay)
+                out = check_history(res, W, obs, W["plan"], "serial", replay=replay)
+                if out is not None and out["n_fail"] >= 1:
+                    res.sig(n_class(len(obs["keys"])), 0, "serial", pattern_class(W, W["plan"], obs["keys"]), W["store"], W["entry"], W["inputs"])
+                if W["layout"] == "subdirs" and n >= 2:
+                    # the same inputs with the DEFAULT identifiers collide: documented refusal (ValueError)
+                    W2 = dict(W, idfn=None)
+                    o2 = run_history(W2, world, W["plan"])
+                    res.evals += 1
+                    if isinstance(o2["raised"], ValueError):
+                        res.refused += 1
+                        res.count("default-identifiers-collide:refused")
+                    else:
+                        res.witness(
+                            "C14/apply_to/colliding-identifiers-accepted" if o2["raised"] is None else exc_mechanism("C14/apply_to/colliding-identifiers", o2["raised"]),
+                            **describe(W2, o2, replay_case=replay, records=o2["records"][:6], error=repr(o2["raised"])[:300]),
+                        )
             else:
                 # phase 1: a subset, with its own plan; phase 2: everything, same store (append-only semantics)
                 keys = list(W["keys"])
                 sub = set(hr.sample(keys, hr.randint(1, len(keys))))
-                plan1 = make_plan(hr, keys, len(W["steps"]), "mixed")
+                plan1 = make_plan(hr, keys, W["steps"], "mixed")
                 o1 = run_history(W, world, plan1, subset=sub)
                 r1 = check_history(res, W, o1, plan1, "serial", replay=replay)
                 if r1 is not None:
                     o2 = run_history(W, world, W["plan"], store_path=o1["store_path"])
-                    check_history(res, W, o2, W["plan"], "serial-resumed", prior=r1["final"], replay=replay)
+                    r2 = check_history(res, W, o2, W["plan"], "serial-resumed", prior=r1["final"], replay=replay)
+                    if r2 is not None and r2["n_fail"] >= 1:
+                        res.sig(n_class(len(o2["keys"])), 0, "serial-resumed", pattern_class(W, W["plan"], o2["keys"]), W["store"], W["entry"], W["inputs"])
             res.sample({"serial": {"kind": kind, "steps": W["steps"], "entry": W["entry"], "store": W["store"], "inputs": W["inputs"], "plan": W["plan"]}})
         finally:
             world.close()
